@@ -526,7 +526,7 @@ class C08(vlib.Driver):
         "CQN": [{"form": "tuple"}, {"obs": "image", "form": "tuple"}, {"pre": ["mut_arch", "mut_arch"]}, {"obs": "dict", "pre": ["learn", "mut_hp"]}],
         "CDQN": [{"form": "tuple", "obs": "dict"}, {"obs": "disc", "pre": ["mut_arch", "ckpt"]}],
         "Rainbow": [{"obs": "image"}, {"obs": "dict", "per": True}, {"pre": ["mut_param", "ckpt"]}, {"pre": ["learn", "mut_hp"], "per": True},
-                    {"obs": "disc", "pre": ["clone", "mut_param", "clone"]}],
+                    {"obs": "disc", "pre": ["clone", "mut_param", "clone"]}, {"pre": ["sharpen"], "force_done": True, "atoms": 33}],
         "DDPG": [{"default_noise": True, "lo": [-1.0, -1.0, -1.0], "hi": [1.0, 1.0, 1.0]}, {"obs": "dict"}, {"obs": "image", "share": True}, {"pre": ["clone", "mut_arch", "clone"], "share": True},
                  {"pre": ["mut_arch", "ckpt"]}, {"pre": ["learn", "mut_hp"]}],
         "TD3": [{"form": "tuple"}, {"default_noise": True, "form": "tuple", "lo": [-1.0, -1.0, -1.0], "hi": [1.0, 1.0, 1.0]}, {"obs": "dict", "pre": ["mut_arch", "load"]},
@@ -562,7 +562,12 @@ class C08(vlib.Driver):
                                       "combined": bool(vi % 2), "ndones": [rng.randint(0, 1) for _ in range(B)], "wshape": "col"}
                         if v.get("per"):
                             case["rb"]["per"] = True
-                    case.update({k: x for k, x in v.items() if k != "per"})
+                    case.update({k: x for k, x in v.items() if k not in ("per", "force_done", "atoms")})
+                    if v.get("atoms"):
+                        case["rb"]["atoms"] = v["atoms"]
+                    if v.get("force_done"):
+                        case["dones"] = [1] * (B - 1) + [0]
+                        case["rb"]["ndones"] = [1] * B
                     out.append(case)
         return out
 
@@ -575,6 +580,15 @@ class C08(vlib.Driver):
             b, _ = make_batch(case, salt=100 + k)
             torch.manual_seed(case["seed"] + 17 * k)
             call_learn(agent, case, b)
+            return agent
+        if op == "sharpen":
+            # a trained Rainbow net has peaked return distributions: scale the output layers of the value / advantage
+            # streams of actor and actor_target so that some atoms fall below the 1e-3 clamp of the network's forward
+            with torch.no_grad():
+                for net in (agent.actor, agent.actor_target):
+                    for n_, p_ in net.named_parameters():
+                        if "layer_output" in n_ and n_.endswith(("weight_mu", "bias_mu")) and "head_net" in n_:
+                            p_.mul_(150.0)
             return agent
         if op == "clone":
             return agent.clone()
@@ -769,7 +783,7 @@ class C08(vlib.Driver):
                 terms.append(f"check_rainbow {coq_Q(g32)} {coq_Q(gn)} {coq_Q(f32(rb['vmin']))} {coq_Q(f32(rb['vmax']))} {coq_Q(dz)} "
                              f"{Ql(t['support'])} {coq_bool(use1)} {coq_bool(usen)} {rrows(t['one'])} {rrows(t['n'])} {Ql(t['w'])} "
                              f"{coq_Q(out['loss'])} {elem_obs}")
-                terms.append(f"check_rainbow_mass {Ql(t['support'])} {rrows(t['one'])} && check_rainbow_mass {Ql(t['support'])} {rrows(t['n'])}")
+                terms.append(f"check_rainbow_mass false {Ql(t['support'])} {rrows(t['one'])} && check_rainbow_mass false {Ql(t['support'])} {rrows(t['n'])}")
             elif algo in SINGLE_AC:
                 nc = 1 if algo == "DDPG" else 2
                 terms.append(f"check_ac {g} {nc}%nat {arows(t)} {arows(t2)} {coq_Q(out['loss'])}")
@@ -882,10 +896,19 @@ class C08(vlib.Driver):
             l1 = l1 if isinstance(l1, list) else [l1]
             l2 = l2 if isinstance(l2, list) else [l2]
             tol_l, tol_w = (1e-5, None) if algo == "Rainbow" else (0.0, 0.0)
+            sigd = f"done-mask:{algo}"
+            extra = ""
+            if algo == "Rainbow":
+                masses = [sum(p) for key in ("one", "n") for tt in [obs["steps"][0]["tables"][key], obs["steps"][0]["tables2"][key]] if tt
+                          for p, dd in zip(tt["p"], tt["d"]) if dd == 1]
+                if masses and max(abs(m - 1) for m in masses) > 1e-5:
+                    sigd = "done-mask:Rainbow:clamped-target-mass"
+                    extra = (f"; the target distributions of the done rows have total mass {[round(m, 6) for m in masses]} (softmax clamped at "
+                             f"1e-3 without renormalisation), and the projected target of a done row is (that mass) x (a reward-only vector)")
             if any(relerr(a, b) > tol_l for a, b in zip(l1, l2)):
-                out.append(Violation("done-mask", f"done-mask:{algo}",
+                out.append(Violation("done-mask", sigd,
                                      f"two identical agents under equal seeds: learn(batch) -> loss {l1}, learn(batch with next_obs changed only "
-                                     f"where done=1) -> loss {l2} (dones={case['dones']})"))
+                                     f"where done=1) -> loss {l2} (dones={case['dones']})" + extra))
             elif tw.get("gdiff") is not None and tw["gdiff"] > (1e-4 if algo == "Rainbow" else 0.0):
                 out.append(Violation("done-mask", f"done-mask-gradient:{algo}",
                                      f"two identical agents under equal seeds: the gradients of the value networks at the optimiser step differ by "
